@@ -7,11 +7,13 @@ EXPLANATION = ("Same real MGM/MGM2 runs as C03. Oracle: whenever S_k+1 == S_k (a
                "for every variable v and every domain value d, cost(S_k) is not worse than cost(S_k[v:=d]) -- one query per path.")
 ASSUMPTIONS = [
     "costs are integers in [-2^40, 2^40]; numpy storage replaced by object arrays",
+    "mgm-pair-real jobs: costs are decimals k / 10^7 in [0, 1] (k a symbolic integer), arithmetic exact (no float noise); round(x, n) "
+    "is the nearest multiple of 10^-n (ties upwards), computed in integer arithmetic on k",
     "random draws arbitrary (explored exhaustively); arbitrary initial assignment",
     "delivery model: per-channel FIFO interleavings, sleep-set reduced; canonical schedule where stated",
 ]
 BOUNDS = {
-    "quick": "MGM: pair (also with break_mode=random, and with entries that are either symbolic or infinite) (all schedules), pair with two constraints and own cost tables on both variables (second table pinned to 0), chain-3 (canonical schedule), min and max; MGM2: pair, chain-3 pinned to the witness tables of the committed-tie finding; stop_cycle 3",
+    "quick": "MGM: pair (also with break_mode=random, with entries that are either symbolic or infinite, and with 7-decimal fractional entries) (all schedules), pair with two constraints and own cost tables on both variables (second table pinned to 0), chain-3 (canonical schedule), min and max; MGM2: pair, chain-3 pinned to the witness tables of the committed-tie finding; stop_cycle 3",
     "thorough": "quick + MGM triangle, star-3, ternary; chain-3 all schedules; bug hunting only (cpu budget): MGM2 chain-3 with symbolic tables",
 }
 OUTSIDE = "more than 4 variables, domain above 2, cycles beyond the third (inductive reading through arbitrary initial values; "\
@@ -33,7 +35,7 @@ def jobs(tier):
                     "kinds": ["sym", "inf" if mode == "min" else "-inf"]})
         # real-valued costs in [0, 1] (gains with many decimals)
         out.append({"name": "mgm-pair-real-%s" % mode, "algo": "mgm", "spec": spec("pair", mode), "stop": 3,
-                    "real": True, "range": (0, 1)})
+                    "real": "dec7", "range": (0, 1)})
         # non-default tie-break parameter
         out.append({"name": "mgm-pair-breakrandom-%s" % mode, "algo": "mgm", "spec": spec("pair", mode), "stop": 3,
                     "params": {"break_mode": "random"}})
